@@ -148,8 +148,17 @@ func (u *ModelUpdates) AddRowUpdate(dbModel model.DatabaseModel, table, uuid str
 			return err
 		}
 		changed, err := updateModel(dbModel, table, info, ru.New, nil)
-		if !changed || err != nil {
+		if err != nil {
 			return err
+		}
+		// the new row of an update notification is the whole row: a column
+		// that is not in it has its default value
+		reset, err := resetAbsentColumns(dbModel, table, info, ru.New)
+		if err != nil {
+			return err
+		}
+		if !changed && !reset {
+			return nil
 		}
 		err = u.addUpdate(dbModel, table, uuid, modelUpdate{old: old, new: new, rowUpdate2: &rowUpdate2{Old: ru.Old, New: ru.New}})
 		if err != nil {
@@ -459,6 +468,32 @@ func (u *ModelUpdates) addDeleteOperation(dbModel model.DatabaseModel, table, uu
 	)
 
 	return err
+}
+
+// resetAbsentColumns sets to their default value the columns of a model that
+// are not present in the provided row. Returns whether the model was changed.
+func resetAbsentColumns(dbModel model.DatabaseModel, table string, info *mapper.Info, row *ovsdb.Row) (bool, error) {
+	schema := dbModel.Schema.Table(table)
+	var changed bool
+	for column, colSchema := range schema.Columns {
+		if _, ok := (*row)[column]; ok {
+			continue
+		}
+		current, err := info.FieldByColumn(column)
+		if err != nil {
+			// the model does not have this column
+			continue
+		}
+		if ovsdb.IsDefaultValue(colSchema, current) {
+			continue
+		}
+		err = info.SetField(column, reflect.Zero(reflect.TypeOf(current)).Interface())
+		if err != nil {
+			return false, err
+		}
+		changed = true
+	}
+	return changed, nil
 }
 
 func updateModel(dbModel model.DatabaseModel, table string, info *mapper.Info, update, modify *ovsdb.Row) (bool, error) {
